@@ -319,6 +319,7 @@ def run(cfg, ops=None, rng=None):
     replay = ops is not None
     length = len(ops) if replay else cfg["L"]
     pool = []
+    canon = {}
     try:
         for step in range(length):
             snap = world.snapshot()
@@ -373,7 +374,9 @@ def run(cfg, ops=None, rng=None):
                 continue
             ic, rx = cfg["resolvers"][op["r"]]
             rsv = resolvers[op["r"]]
-            pat = op["pat"]
+            # equal pattern strings are one str object in search and in replay alike
+            # (a caller re-using a constant), so identity-keyed memoisation behaves the same
+            pat = canon.setdefault(op["pat"], op["pat"])
             startnode = world.nodes[op["s"]]
             unique = sibling_unique(snap, labels, ic)
             if not rx and not unique:
